@@ -427,6 +427,28 @@ class Program:
                     if ent not in reg.extra:
                         reg.extra.append(ent)
 
+    def dispatch_types(self) -> Dict[str, str]:
+        """TYPE_X -> registry list name, through  TYPE_X = types.FunctionType(SIGNATURE_X)  and
+        build_function_address_list(REGISTRY, SIGNATURE_X)."""
+        c = getattr(self, "_dispatch_types", None)
+        if c is not None:
+            return c
+        type_sig: Dict[str, str] = {}
+        for m in self.modules.values():
+            for st in m.tree.body:
+                if (isinstance(st, ast.Assign) and len(st.targets) == 1 and isinstance(st.targets[0], ast.Name) and isinstance(st.value, ast.Call)
+                        and ast.unparse(st.value.func).endswith("FunctionType") and len(st.value.args) == 1 and isinstance(st.value.args[0], ast.Name)):
+                    type_sig[st.targets[0].id] = st.value.args[0].id
+        sig_reg: Dict[str, str] = {}
+        for m in self.modules.values():
+            for n in ast.walk(m.tree):
+                if (isinstance(n, ast.Call) and isinstance(n.func, ast.Name) and n.func.id == "build_function_address_list" and len(n.args) == 2
+                        and isinstance(n.args[0], ast.Name) and isinstance(n.args[1], ast.Name)):
+                    sig_reg[n.args[1].id] = n.args[0].id
+        c = {t: sig_reg[sg] for t, sg in type_sig.items() if sg in sig_reg}
+        self._dispatch_types = c
+        return c
+
     def registry(self, list_name: str) -> Registry:
         hits = [r for (mod, nm), r in self.registries.items() if nm == list_name]
         if len(hits) != 1:
